@@ -170,9 +170,16 @@ func (c C20) Run(t *tape.Tape, opt core.RunOpt) (res core.Result) {
 			pre = append(pre, newSub(topic()).ID)
 		}
 		ntasks := 2 + t.Draw(5)
+		maxOps := 4
+		if opt.Tier == "thorough" && t.Bool(1, 2) {
+			// deeper histories in the thorough tier (still within what porcupine
+			// decides quickly: <= 8 tasks x 6 calls, publishes split in two)
+			ntasks = 2 + t.Draw(7)
+			maxOps = 6
+		}
 		for i := 0; i < ntasks; i++ {
 			var ops []c20Op
-			for j := 0; j < 1+t.Draw(4); j++ {
+			for j := 0; j < 1+t.Draw(maxOps); j++ {
 				switch t.Draw(7) {
 				case 0, 1:
 					ops = append(ops, c20Op{Kind: "sub", Sid: newSub(topic()).ID})
